@@ -214,7 +214,8 @@ func (g *Gen) expr(t *Type, depth int) string {
 			for _, v := range g.varsOf(func(v *Var) bool { return v.T.K == KOpt && v.T.Elem.K == KStruct }) {
 				c := g.W.comp(v.T.Elem.Name)
 				for _, f := range c.Fields {
-					if f.T.Eq(t.Elem) && f.T.K != KOpt {
+					// `v?.f` has type X? both for a field of type X and for a field of type X? (flattened)
+					if (f.T.Eq(t.Elem) && f.T.K != KOpt) || f.T.Eq(t) {
 						g.feat("optional_chaining")
 						return v.Name + "?." + f.Name
 					}
@@ -354,7 +355,7 @@ func (g *Gen) numExpr(t *Type, depth int) string {
 			case 3:
 				for _, v := range g.varsOf(func(v *Var) bool { return v.T.K == KStruct }) {
 					g.feat("method_call")
-					return v.Name + "." + pick(r, []string{"getA()", "bump(" + fmt.Sprint(r.IntN(5)) + ")"})
+					return v.Name + "." + pick(r, []string{"getA()", "bump(" + fmt.Sprint(r.IntN(5)) + ")", "mk()(" + fmt.Sprint(r.IntN(5)) + ")"})
 				}
 			case 4:
 				g.feat("closure_call")
@@ -627,6 +628,10 @@ func (g *Gen) resExpr(t *Type) string {
 	r := g.R
 	switch t.K {
 	case KRes:
+		if t.Name == "AnyResource" {
+			g.feat("res_anyresource_container")
+			return "<- make(" + fmt.Sprint(r.IntN(50)) + ")"
+		}
 		if t.Name == "R0" {
 			if g.Tx || r.IntN(2) == 0 {
 				return "<- make(" + fmt.Sprint(r.IntN(50)) + ")"
@@ -659,7 +664,8 @@ func (g *Gen) resExpr(t *Type) string {
 
 func (g *Gen) resTypes() []*Type {
 	r0, r1 := g.W.Resources[0].T, g.W.Resources[1].T
-	return []*Type{r0, r0, r0, r1, r1, Opt(r0), Arr(r0), Dict(TString, r0)}
+	anyRes := &Type{K: KRes, Name: "AnyResource"}
+	return []*Type{r0, r0, r0, r1, r1, Opt(r0), Arr(r0), Dict(TString, r0), Arr(anyRes), Dict(TString, anyRes), Dict(TString, r0)}
 }
 
 // stmt emits one statement.
@@ -797,6 +803,13 @@ func (g *Gen) stmt() {
 		}
 		g.line("let %s = fun (x: Int): Int { return x + %s }", f, cap)
 		g.line("log(%s(%s))", f, g.expr(TInt, 1))
+		if vs := g.varsOf(func(v *Var) bool { return v.T.K == KStruct }); len(vs) > 0 && r.IntN(2) == 0 {
+			// closure that captured `self` inside a method and escaped it
+			g.feat("closure_escaping_self")
+			m := g.fresh("mk")
+			g.line("let %s = %s.mk()", m, pick(r, vs).Name)
+			g.line("log(%s(%d))", m, r.IntN(9))
+		}
 	case k < 80:
 		// casts through AnyStruct
 		g.feat("cast")
@@ -857,6 +870,9 @@ func (g *Gen) extraStmt() {
 	sel := r.IntN(29)
 	if sel >= 15 {
 		sel -= 15 // cases 0..13 twice as likely as case 14
+	}
+	if sel == 14 && r.IntN(5) != 0 {
+		sel = 13 // keep the (known-defective) field-element swap rare: it aborts the program on I
 	}
 	switch sel {
 	case 0:
@@ -1258,7 +1274,7 @@ func (g *Gen) resourceOp() {
 			n := g.fresh("q")
 			g.line("if %s.length > 0 {", v.Name)
 			g.line("    let %s <- %s.removeFirst()", n, v.Name)
-			g.line("    log(%s.n)", n)
+			g.line("    log(%s)", memberOrType(n, v.T.Elem))
 			g.line("    destroy %s", n)
 			g.line("}")
 		}
@@ -1275,7 +1291,7 @@ func (g *Gen) resourceOp() {
 			n := g.fresh("q")
 			v.Owned = false
 			g.line("if let %s <- %s {", n, v.Name)
-			g.line("    log(%s.n)", n)
+			g.line("    log(%s)", memberOrType(n, v.T.Elem))
 			g.line("    destroy %s", n)
 			g.line("}")
 		}
@@ -1288,7 +1304,7 @@ func (g *Gen) resourceOp() {
 			_ = n
 		}
 	case 7:
-		if v.T.K == KArr {
+		if v.T.K == KArr && v.T.Elem.Name != "AnyResource" {
 			g.feat("res_array_index_ref")
 			g.line("if %s.length > 0 { log(%s[0].n + %s[%s.length - 1].inc()) }", v.Name, v.Name, v.Name, v.Name)
 		}
@@ -1414,4 +1430,13 @@ func (g *Gen) typed(t *Type, depth int) string {
 
 func (g *Gen) anyOf(t *Type, depth int) string {
 	return "(" + g.typed(t, depth) + " as AnyStruct)"
+}
+
+// memberOrType reads a field of a resource of a concrete type, or only its run-time type
+// when it is statically an AnyResource.
+func memberOrType(name string, t *Type) string {
+	if t.K == KRes && t.Name == "AnyResource" {
+		return name + ".getType().identifier"
+	}
+	return name + ".n"
 }
